@@ -1,5 +1,6 @@
-\* C19 growth: the std sources evaluated by Eval.tla against the reference (the driver generates this
-\* configuration with SrcDevs = the deviations of the findings that are still open)
+\* C19 growth, sanity: with SrcDevs = {} TLC must print DISAGREE lines for exactly the recorded defects of
+\* the std sources (tail of [], zip of unequal lists, str_join with a leading "", shaped on tuples) - as long as
+\* they are not repaired.  Needs C19_SRC like StdlibSrc.cfg.
 CONSTANTS
   Families = {"list1", "enum", "zip", "slice", "join", "tuple", "str1", "split", "splitat", "substr", "parseint", "maybe", "basetype", "shaped", "anyall"}
   Size = "srcq"
